@@ -38,6 +38,13 @@ func (r *runner) ask(line string, check func(out string)) {
 	r.batch = append(r.batch, pending{line, check})
 }
 
+// maybeFlush keeps the queue bounded in the thorough tier (called between cases only).
+func (r *runner) maybeFlush() {
+	if len(r.batch) > 20000 {
+		r.flush()
+	}
+}
+
 // flush evaluates queued lines; checks may queue follow-up lines (second phase).
 func (r *runner) flush() {
 	for len(r.batch) > 0 {
@@ -162,7 +169,7 @@ func main() {
 
 	c := counts{hash: 120, ped: 20, pedOps: 10, intc: 10, intOps: 10, eg: 12, egOps: 10, ext: 60, equiv: 24, tamperPerProgram: 2}
 	if a.Tier == "thorough" {
-		c = counts{hash: 1500, ped: 300, pedOps: 50, intc: 120, intOps: 50, eg: 200, egOps: 50, ext: 1500, equiv: 600, tamperPerProgram: 6}
+		c = counts{hash: 800, ped: 300, pedOps: 50, intc: 120, intOps: 50, eg: 200, egOps: 50, ext: 1500, equiv: 600, tamperPerProgram: 6}
 	}
 	if a.Search {
 		c = counts{hash: 1500, ped: 150, pedOps: 20, intc: 40, intOps: 12, eg: 100, egOps: 20, ext: 400, equiv: 300, tamperPerProgram: 4}
@@ -183,6 +190,7 @@ func main() {
 	}
 	for i := 0; i < c.hash; i++ {
 		hashcomCase(r, i)
+		r.maybeFlush()
 	}
 	lap("hashcom")
 	pedersenAll(r, c)
@@ -193,6 +201,7 @@ func main() {
 	lap("intcom")
 	for i := 0; i < c.ext; i++ {
 		extractCase(r, i)
+		r.maybeFlush()
 	}
 	lap("extraction")
 	res.Write(a.Out)
